@@ -3,6 +3,7 @@
 package engines
 
 import (
+	"math"
 	"bytes"
 	"crypto/ed25519"
 	"crypto/rand"
@@ -44,6 +45,16 @@ func drawRootCfg(tp *kernel.Tape) rootCfg {
 		return c
 	case 1:
 		c.L = time.Duration(tp.Range(1, 20)) // nanosecond-scale lifetimes
+	case 2:
+		if tp.Draw(3) == 0 {
+			// "never expire": lifetimes of centuries, up to the largest duration there is; lifetime + skew may exceed it
+			const y = 365 * 24 * time.Hour
+			c.L = []time.Duration{250 * y, 290 * y, math.MaxInt64 - time.Minute, math.MaxInt64}[tp.Draw(4)]
+			c.nb = []time.Duration{0, -5 * time.Minute}[tp.Draw(2)]
+			c.na = []time.Duration{0, 5 * time.Minute, 50 * y}[tp.Draw(3)]
+			return c
+		}
+		c.L = tp.DurLog(time.Nanosecond, 10*365*24*time.Hour)
 	default:
 		c.L = tp.DurLog(time.Nanosecond, 10*365*24*time.Hour)
 	}
@@ -475,6 +486,9 @@ func propC08(r *kernel.Run) {
 	r.Count("cfg.mode.history", 1)
 	n := tp.Range(2, 12)
 	span := cfg.L + cfg.na - cfg.nb
+	if span <= 0 || span > 20*365*24*time.Hour {
+		span = 20 * 365 * 24 * time.Hour // century-scale lifetimes: the run does not move the clock that far
+	}
 	var hist []string
 	for i := 0; i < n; i++ {
 		reinit := tp.Draw(15) == 0
